@@ -50,6 +50,7 @@ type FuncContract struct {
 	File      string
 	Line      int
 	Ghosts    []*GhostStmt
+	Decreases *Clause
 }
 
 // GhostStmt: "at <label> assert/assume EXPR" hooks are not needed yet; placeholder for `use` hints.
@@ -96,10 +97,12 @@ type ContractSet struct {
 	Lemmas  []*Lemma
 	Consts  map[string]*Expr
 	Order   []string
+	Closed  map[string]bool     // pkgpath.TypeName of interfaces treated as closed-world
+	TypeInv map[string][]*Clause // pkgpath.TypeName -> own-field object invariants
 }
 
 func NewContractSet() *ContractSet {
-	return &ContractSet{Funcs: map[string]*FuncContract{}, Specs: map[string]*SpecFun{}, Consts: map[string]*Expr{}}
+	return &ContractSet{Funcs: map[string]*FuncContract{}, Specs: map[string]*SpecFun{}, Consts: map[string]*Expr{}, Closed: map[string]bool{}, TypeInv: map[string][]*Clause{}}
 }
 
 // ParseContractFile reads //@ lines from a file. pkgPath is "" for extern files.
@@ -181,6 +184,31 @@ func (cs *ContractSet) ParseContractFile(path, pkgPath string) error {
 			cs.Funcs[k] = fc
 			cs.Order = append(cs.Order, k)
 			cur = fc
+		case "closed":
+			for _, n := range strings.Fields(strings.ReplaceAll(rest, ",", " ")) {
+				cs.Closed[pkgPath+"."+n] = true
+			}
+		case "typeinv":
+			name, r2 := splitWord(rest)
+			name = strings.TrimSuffix(name, ":")
+			text, cname := splitName(strings.TrimPrefix(strings.TrimSpace(r2), ":"))
+			e, err := ParseExpr(text)
+			if err != nil {
+				return fail(err)
+			}
+			if cname == "" {
+				cname = fmt.Sprintf("inv%d", len(cs.TypeInv[pkgPath+"."+name])+1)
+			}
+			cs.TypeInv[pkgPath+"."+name] = append(cs.TypeInv[pkgPath+"."+name], &Clause{Name: cname, Text: text, E: e, Line: l.no, File: path})
+		case "decreases":
+			e, err := ParseExpr(rest)
+			if err != nil {
+				return fail(err)
+			}
+			if cur == nil {
+				return fail(fmt.Errorf("decreases outside func"))
+			}
+			cur.Decreases = &Clause{Name: "decreases", Text: rest, E: e, Line: l.no, File: path}
 		case "mode":
 			if curLemma != nil {
 				curLemma.Mode = rest
@@ -893,7 +921,7 @@ func (ps *parser) parseMul() (*Expr, error) {
 }
 
 func (ps *parser) parseUnary() (*Expr, error) {
-	if ps.isOp("!") || ps.isOp("-") {
+	if ps.isOp("!") || ps.isOp("-") || ps.isOp("*") {
 		op := ps.next().text
 		x, err := ps.parseUnary()
 		if err != nil {
